@@ -1,2 +1,273 @@
-class SymFP: pass
-class SymBV: pass
+"""Bit-precise IEEE-754 binary64 scalars (SymFP) and int64 bit-vectors (SymBV) with numpy's
+semantics for %, floor, astype(int) (x86-64 cvttsd2si: out-of-range -> INT64_MIN) and
+int64 -> float64 conversion (round to nearest even)."""
+from __future__ import annotations
+
+import math
+import struct
+
+import numpy as np
+import z3
+
+from .core import HarnessError, SymBool, cur
+
+FP = z3.Float64()
+RNE = z3.RNE()
+RTZ = z3.RTZ()
+RTN = z3.RTN()
+INT64_MIN = z3.BitVecVal(-(2 ** 63), 64)
+
+
+def fpval(x: float):
+    bits = struct.unpack("<Q", struct.pack("<d", float(x)))[0]
+    return z3.fpBVToFP(z3.BitVecVal(bits, 64), FP)
+
+
+def fp_bits(term):
+    return z3.fpToIEEEBV(term)
+
+
+class SymBV:
+    """numpy int64."""
+
+    __slots__ = ("z",)
+    __array_priority__ = 1500
+
+    def __init__(self, z):
+        self.z = z
+
+    @staticmethod
+    def lift(x):
+        if isinstance(x, SymBV):
+            return x
+        if isinstance(x, (int, np.integer)) and not isinstance(x, bool):
+            return SymBV(z3.BitVecVal(int(x), 64))
+        raise HarnessError(f"cannot lift {x!r} to int64")
+
+    def to_fp(self) -> "SymFP":
+        return SymFP(z3.fpSignedToFP(RNE, self.z, FP))
+
+    def __mod__(self, o):
+        o = SymBV.lift(o)
+        oc = z3.simplify(o.z)
+        if not z3.is_bv_value(oc) or oc.as_signed_long() <= 0:
+            raise HarnessError("int64 % non-constant or non-positive modulus")
+        r = z3.SRem(self.z, o.z)
+        return SymBV(z3.If(r < 0, r + o.z, r))  # numpy/Python: sign of the divisor
+
+    def __add__(self, o):
+        if isinstance(o, (SymFP, float, np.floating)):
+            return self.to_fp() + o
+        return SymBV(self.z + SymBV.lift(o).z)
+
+    __radd__ = __add__
+
+    def __sub__(self, o):
+        if isinstance(o, (SymFP, float, np.floating)):
+            return self.to_fp() - o
+        return SymBV(self.z - SymBV.lift(o).z)
+
+    def __rsub__(self, o):
+        if isinstance(o, (SymFP, float, np.floating)):
+            return SymFP.lift(o) - self.to_fp()
+        return SymBV(SymBV.lift(o).z - self.z)
+
+    def __eq__(self, o):
+        return SymBool(self.z == SymBV.lift(o).z)
+
+    def __ne__(self, o):
+        return SymBool(self.z != SymBV.lift(o).z)
+
+    def __lt__(self, o):
+        return SymBool(self.z < SymBV.lift(o).z)
+
+    def __le__(self, o):
+        return SymBool(self.z <= SymBV.lift(o).z)
+
+    def __gt__(self, o):
+        return SymBool(self.z > SymBV.lift(o).z)
+
+    def __ge__(self, o):
+        return SymBool(self.z >= SymBV.lift(o).z)
+
+    def __hash__(self):
+        raise HarnessError("SymBV is not hashable")
+
+    def __repr__(self):
+        return f"SymBV({z3.simplify(self.z)})"
+
+
+class SymFP:
+    __slots__ = ("z",)
+    __array_priority__ = 1500
+
+    def __init__(self, z):
+        self.z = z
+
+    @staticmethod
+    def lift(x):
+        if isinstance(x, SymFP):
+            return x
+        if isinstance(x, SymBV):
+            return x.to_fp()
+        if isinstance(x, (float, np.floating)):
+            return SymFP(fpval(float(x)))
+        if isinstance(x, (int, np.integer)) and not isinstance(x, bool):
+            if abs(int(x)) > 2 ** 53:
+                return SymBV.lift(x).to_fp()
+            return SymFP(fpval(float(int(x))))
+        if isinstance(x, np.ndarray) and x.ndim == 0:
+            return SymFP.lift(x.item())
+        raise HarnessError(f"cannot lift {type(x).__name__} to float64")
+
+    def _bin(self, o, f, rev=False):
+        if isinstance(o, np.ndarray) and o.ndim > 0:
+            return NotImplemented
+        o = SymFP.lift(o)
+        return SymFP(f(RNE, o.z, self.z) if rev else f(RNE, self.z, o.z))
+
+    def __add__(self, o):
+        return self._bin(o, z3.fpAdd)
+
+    __radd__ = __add__
+
+    def __sub__(self, o):
+        return self._bin(o, z3.fpSub)
+
+    def __rsub__(self, o):
+        return self._bin(o, z3.fpSub, rev=True)
+
+    def __mul__(self, o):
+        return self._bin(o, z3.fpMul)
+
+    __rmul__ = __mul__
+
+    def __truediv__(self, o):
+        return self._bin(o, z3.fpDiv)
+
+    def __rtruediv__(self, o):
+        return self._bin(o, z3.fpDiv, rev=True)
+
+    def __neg__(self):
+        return SymFP(z3.fpNeg(self.z))
+
+    def __abs__(self):
+        return SymFP(z3.fpAbs(self.z))
+
+    def __mod__(self, o):
+        """numpy float remainder (npy_divmod): fmod, then sign of the divisor.
+        Modelled for the moduli 1.0 and 2.0 (fmod is exact; no multiplier is used)."""
+        if not isinstance(o, (float, np.floating, int)) or float(o) not in (1.0, 2.0):
+            raise HarnessError("float % is modelled for a modulus of exactly 1.0 or 2.0 only")
+        b = float(o)
+        x = self.z
+        zero = fpval(0.0)
+        if b == 1.0:
+            t = z3.fpRoundToIntegral(RTZ, x)
+        else:
+            # trunc(x/2)*2 with halving/doubling done on the exponent field (valid for |x| >= 2)
+            bits = z3.fpToIEEEBV(x)
+            half = z3.fpBVToFP(bits - z3.BitVecVal(1 << 52, 64), FP)
+            th = z3.fpRoundToIntegral(RTZ, half)  # integer, |th| >= 1
+            dbl = z3.fpBVToFP(z3.fpToIEEEBV(th) + z3.BitVecVal(1 << 52, 64), FP)
+            big = z3.fpGEQ(z3.fpAbs(x), fpval(2.0))
+            t = z3.If(big, dbl, zero)
+        mod = z3.fpSub(RNE, x, t)  # fmod(x, b); exact
+        bb = fpval(b)
+        res = z3.If(z3.fpIsZero(mod), zero, z3.If(z3.fpLT(mod, zero), z3.fpAdd(RNE, mod, bb), mod))
+        return SymFP(res)
+
+    def floor(self):
+        return SymFP(z3.fpRoundToIntegral(RTN, self.z))
+
+    __floor__ = floor
+
+    def rint(self):
+        return SymFP(z3.fpRoundToIntegral(RNE, self.z))
+
+    def to_int64(self) -> SymBV:
+        x = self.z
+        lo = fpval(-(2.0 ** 63))
+        hi = fpval(2.0 ** 63)
+        in_range = z3.And(z3.fpGEQ(x, lo), z3.fpLT(x, hi))  # false for NaN
+        return SymBV(z3.If(in_range, z3.fpToSBV(RTZ, x, z3.BitVecSort(64)), INT64_MIN))
+
+    def astype(self, dtype, *a, **k):
+        dt = np.dtype(dtype)
+        if dt.kind in "iu":
+            return self.to_int64()
+        if dt.kind == "f":
+            return self
+        raise HarnessError(f"SymFP.astype({dtype})")
+
+    def copy(self):
+        return self
+
+    def isfinite(self):
+        return SymBool(z3.Not(z3.Or(z3.fpIsNaN(self.z), z3.fpIsInf(self.z))))
+
+    def _cmp(self, o, f):
+        if isinstance(o, np.ndarray) and o.ndim > 0:
+            return NotImplemented
+        return SymBool(f(self.z, SymFP.lift(o).z))
+
+    def __lt__(self, o):
+        return self._cmp(o, z3.fpLT)
+
+    def __le__(self, o):
+        return self._cmp(o, z3.fpLEQ)
+
+    def __gt__(self, o):
+        return self._cmp(o, z3.fpGT)
+
+    def __ge__(self, o):
+        return self._cmp(o, z3.fpGEQ)
+
+    def __eq__(self, o):
+        return self._cmp(o, z3.fpEQ)
+
+    def __ne__(self, o):
+        return self._cmp(o, z3.fpNEQ)
+
+    def __hash__(self):
+        raise HarnessError("SymFP is not hashable")
+
+    def __float__(self):
+        v = z3.simplify(self.z)
+        if z3.is_fp_value(v):
+            from .core import z3_value_to_py
+            return z3_value_to_py(v)
+        raise HarnessError("float() of a symbolic double")
+
+    def __format__(self, spec):
+        return "<symfp>"
+
+    def __repr__(self):
+        return f"SymFP({z3.simplify(self.z)})"
+
+
+def ite(cond, a, b):
+    c = cond.z if isinstance(cond, SymBool) else z3.BoolVal(bool(cond))
+    a = SymFP.lift(a)
+    b = SymFP.lift(b)
+    return SymFP(z3.If(c, a.z, b.z))
+
+
+def sym_where(cond, a, b):
+    """np.where that stays symbolic (no fork) when the condition is a SymBool."""
+    if isinstance(cond, np.ndarray) and cond.ndim == 0:
+        cond = cond.item()
+    if isinstance(cond, SymBool):
+        aa = a.item() if isinstance(a, np.ndarray) and a.ndim == 0 else a
+        bb = b.item() if isinstance(b, np.ndarray) and b.ndim == 0 else b
+        return ite(cond, aa, bb)
+    if isinstance(cond, np.ndarray) and cond.dtype == object:
+        from .arr import SymArray
+        a_b = np.broadcast_to(np.asarray(a, dtype=object), cond.shape)
+        b_b = np.broadcast_to(np.asarray(b, dtype=object), cond.shape)
+        out = np.empty(cond.shape, dtype=object)
+        for idx in np.ndindex(cond.shape):
+            c = cond[idx]
+            out[idx] = ite(c, a_b[idx], b_b[idx]) if isinstance(c, SymBool) else (a_b[idx] if c else b_b[idx])
+        return out.view(SymArray)
+    return np.where(cond, a, b)
